@@ -1,5 +1,6 @@
 import FranzVerif.Model.Producer
 import FranzVerif.Proof.Producer
+import FranzVerif.Proof.ProducerWake
 import FranzVerif.Proof.ProducerFacts
 import FranzVerif.Proof.ProducerFull
 /-! C03 — producer buffering limits and Flush completion, over all accepted histories. -/
@@ -156,5 +157,114 @@ example :
     1 ∈ inBuffer [.call 1 .produce 3, .hookB 1, .admit 1 1 3 3, .ret 1,
         .call 2 .produce 2, .hookB 2, .block 2,
         .call 3 .try_ 1, .hookB 3, .ret 3, .hookU 3 ⟨.maxBuffered, 7⟩, .promise 3 ⟨.maxBuffered, 7⟩] := by decide
+
+/-! ### No lost wake-up (monitor `Model.ProducerWake`) -/
+
+open Model.ProducerWake in
+/-- Every release of a record's accounting that can make a parked waiter's predicate true — a producer is
+blocked and space freed, or nothing is buffered or blocked any more while a Flush is in progress — is followed
+by a Broadcast of the producer's condition variable, in every history accepted up to its quiescent point. -/
+theorem wake_release_is_broadcast (h₁ h₂ : List Model.ProducerWake.Ev) (s : Model.ProducerWake.St)
+    (id : Nat) (n bl fl : Nat)
+    (hacc : Model.ProducerWake.run {} (h₁ ++ Model.ProducerWake.Ev.released id n bl fl :: h₂ ++ [Model.ProducerWake.Ev.quiesce]) = some s)
+    (hneed : wakeNeeded n bl fl true = true) :
+    ∃ site, Model.ProducerWake.Ev.bcast site ∈ h₂ := by
+  refine Classical.byContradiction fun hno => ?_
+  have hnb : ∀ site, Model.ProducerWake.Ev.bcast site ∉ h₂ := fun site hm => hno ⟨site, hm⟩
+  have hsplit : h₁ ++ Model.ProducerWake.Ev.released id n bl fl :: h₂ ++ [Model.ProducerWake.Ev.quiesce]
+      = h₁ ++ ([Model.ProducerWake.Ev.released id n bl fl] ++ (h₂ ++ [Model.ProducerWake.Ev.quiesce])) := by simp
+  rw [hsplit, Proof.ProducerWake.run_append] at hacc
+  cases h1 : Model.ProducerWake.run {} h₁ with
+  | none => simp [h1] at hacc
+  | some s₁ =>
+    simp only [h1, Option.bind_some] at hacc
+    rw [Proof.ProducerWake.run_append] at hacc
+    have ht1 : s₁.need ≥ Proof.ProducerWake.tent s₁ := Proof.ProducerWake.need_ge_tent {} s₁ h₁ (by simp [Proof.ProducerWake.tent]) h1
+    simp only [Model.ProducerWake.run, Model.ProducerWake.step, Model.ProducerWake.check, Model.ProducerWake.apply, hneed, if_true,
+      Option.bind_some] at hacc
+    rw [Proof.ProducerWake.run_append] at hacc
+    cases h2 : Model.ProducerWake.run { s₁ with need := s₁.need + 1 } h₂ with
+    | none => simp [h2] at hacc
+    | some s₂ =>
+      have hge : s₂.need ≥ Proof.ProducerWake.tent s₂ + 1 :=
+        Proof.ProducerWake.need_stays { s₁ with need := s₁.need + 1 } s₂ h₂ (by simp [Proof.ProducerWake.tent] at ht1 ⊢; omega) hnb h2
+      simp only [h2, Option.bind_some, Model.ProducerWake.run, Model.ProducerWake.step, Model.ProducerWake.check] at hacc
+      have : s₂.need > 0 := by omega
+      simp [this] at hacc
+
+open Model.ProducerWake in
+/-- A produce call that stopped blocking without being admitted (cancelled) at a moment when that made a
+flusher's predicate true has broadcast before it returns: the accepted history has a Broadcast (or the record's
+admission in the same critical section) between the two events. -/
+theorem wake_cancelled_produce_broadcasts (h₁ h₂ h₃ : List Model.ProducerWake.Ev) (id bl n fl : Nat)
+    (hacc : (Model.ProducerWake.run {} (h₁ ++ Model.ProducerWake.Ev.unblocked id bl n fl :: h₂ ++ Model.ProducerWake.Ev.returned id :: h₃)).isSome)
+    (hneed : wakeNeeded n bl fl false = true)
+    (hquiet : ∀ e ∈ h₂, match e with | .unblocked _ _ _ _ => False | _ => True) :
+    (∃ site, Model.ProducerWake.Ev.bcast site ∈ h₂) ∨ Model.ProducerWake.Ev.admitted id ∈ h₂ := by
+  refine Classical.byContradiction fun hno => ?_
+  have hnb : ∀ site, Model.ProducerWake.Ev.bcast site ∉ h₂ := fun site hm => hno (Or.inl ⟨site, hm⟩)
+  have hna : Model.ProducerWake.Ev.admitted id ∉ h₂ := fun hm => hno (Or.inr hm)
+  have hsplit : h₁ ++ Model.ProducerWake.Ev.unblocked id bl n fl :: h₂ ++ Model.ProducerWake.Ev.returned id :: h₃
+      = h₁ ++ ([Model.ProducerWake.Ev.unblocked id bl n fl] ++ (h₂ ++ (Model.ProducerWake.Ev.returned id :: h₃))) := by simp
+  rw [hsplit, Proof.ProducerWake.run_append] at hacc
+  cases h1 : Model.ProducerWake.run {} h₁ with
+  | none => simp [h1] at hacc
+  | some s₁ =>
+    simp only [h1, Option.bind_some] at hacc
+    rw [Proof.ProducerWake.run_append] at hacc
+    simp only [Model.ProducerWake.run, Model.ProducerWake.step, Model.ProducerWake.check, Model.ProducerWake.apply, hneed, if_true,
+      Option.bind_some] at hacc
+    rw [Proof.ProducerWake.run_append] at hacc
+    -- the tentative obligation for `id` survives `h₂`
+    have keep : ∀ (l : List Model.ProducerWake.Ev) (sa sb : Model.ProducerWake.St), sa.tentative = some id →
+        (∀ site, Model.ProducerWake.Ev.bcast site ∉ l) → Model.ProducerWake.Ev.admitted id ∉ l →
+        (∀ e ∈ l, match e with | .unblocked _ _ _ _ => False | _ => True) →
+        Model.ProducerWake.run sa l = some sb → sb.tentative = some id := by
+      intro l
+      induction l with
+      | nil => intro sa sb ht _ _ _ hr; simp [Model.ProducerWake.run] at hr; subst hr; exact ht
+      | cons e es ih =>
+        intro sa sb ht hb ha hq hr
+        simp only [Model.ProducerWake.run] at hr
+        cases hs : Model.ProducerWake.step sa e with
+        | none => simp [hs] at hr
+        | some sc =>
+          simp only [hs] at hr
+          refine ih sc sb ?_ (fun site hm => hb site (by simp [hm])) (fun hm => ha (by simp [hm]))
+            (fun e' he' => hq e' (by simp [he'])) hr
+          unfold Model.ProducerWake.step at hs
+          cases hc : Model.ProducerWake.check sa e with
+          | some r => simp [hc] at hs
+          | none =>
+            simp only [hc, Option.some.injEq] at hs
+            subst hs
+            cases e with
+            | unblocked i b n f =>
+              have hx := hq (Model.ProducerWake.Ev.unblocked i b n f) (by simp)
+              simp at hx
+            | admitted i =>
+              have hne : ¬ id = i := fun h => ha (by simp [h])
+              simp [Model.ProducerWake.apply, ht, hne]
+            | released i n b f => simp only [Model.ProducerWake.apply]; split <;> simp [ht]
+            | bcast site => exact absurd (List.mem_cons_self) (hb site)
+            | returned i =>
+              simp only [Model.ProducerWake.check, ht] at hc
+              have hne : i ≠ id := by
+                intro h; subst h; simp at hc
+              have : (some id == some i) = false := by simp; exact fun h => hne h.symm
+              simp [Model.ProducerWake.apply, ht, this]
+            | quiesce => simp [Model.ProducerWake.apply, ht]
+    cases h2 : Model.ProducerWake.run { need := s₁.need + 1, tentative := some id } h₂ with
+    | none => simp [h2] at hacc
+    | some s₂ =>
+      have ht2 := keep h₂ _ s₂ rfl hnb hna hquiet h2
+      simp only [h2, Option.bind_some, Model.ProducerWake.run, Model.ProducerWake.step, Model.ProducerWake.check, ht2] at hacc
+      simp at hacc
+
+/-- Non-vacuity: the cancel path with a flusher waiting (broadcast before return), and the refused variant without it. -/
+example : Model.ProducerWake.accepts [.released 1 1 1 1, .bcast 3, .unblocked 2 0 0 1, .bcast 1, .bcast 2, .returned 2, .quiesce] = true := by decide
+example : Model.ProducerWake.accepts [.released 1 1 1 1, .bcast 3, .unblocked 2 0 0 1, .bcast 1, .returned 2] = true := by decide
+example : Model.ProducerWake.accepts [.unblocked 2 0 0 1, .returned 2, .quiesce] = false := by decide
+example : Model.ProducerWake.accepts [.released 1 0 0 1, .quiesce] = false := by decide
 
 end Props.C03
